@@ -338,9 +338,86 @@ func init() {
 				r, ok := relOf(iff.Cond, true)
 				return ok && matchRel(r, "!= ==", loadOfField(fExpired), isConstInt(math.MaxInt64))
 			}, []Ev{guardRel("ServiceID==gc_worker", "==", loadOfField(fSvcID), isConstStr(gwName))}, all, "the infinity test applies exactly to the gc_worker entry")
-			c.need("C15/gc-worker-permanent", removeSvc, "call Storage.Remove", instrCallMatcher(P.IMethod("server/kv", "Base", "Remove")),
-				[]Ev{guardRel("serviceID!=gc_worker", "!=", func(v ssa.Value) bool { _, ok := v.(*ssa.Parameter); return ok }, isConstStr(gwName))}, all,
-				"gc_worker's entry is never removed")
+			// identity is decided on the key that is used, not on the id as it was sent: the key is built with
+			// path.Join, which cleans it, so "gc_worker/" or "x/../gc_worker" address gc_worker's entry as well
+			isJoin := func(cl *ssa.Call) bool {
+				f := cl.Call.StaticCallee()
+				return f != nil && f.Pkg != nil && f.Pkg.Pkg.Path() == "path" && f.Name() == "Join"
+			}
+			joinsGW := func(v ssa.Value) bool {
+				// path.Join(…, "gc_worker") itself, or a key helper of the module given "gc_worker"
+				cl, _ := callOf(v)
+				if cl == nil {
+					return false
+				}
+				if f := cl.Call.StaticCallee(); !isJoin(cl) && (f == nil || !strings.HasPrefix(fnPkgPath(f), modPath)) {
+					return false
+				}
+				for _, a := range cl.Call.Args {
+					if isConstStr(gwName)(a) {
+						return true
+					}
+				}
+				k := newKeyAtoms()
+				P.collectKeyAtoms(v, k, 6, map[ssa.Value]bool{})
+				return k.Consts[gwName]
+			}
+			denotesGWKey := func(v ssa.Value) bool {
+				v = strip(v)
+				if sv, ok := constString(v); ok {
+					return strings.HasSuffix(sv, "/"+gwName)
+				}
+				if joinsGW(v) {
+					return true
+				}
+				if u, ok := v.(*ssa.UnOp); ok && u.Op == token.MUL {
+					if g, ok := u.X.(*ssa.Global); ok {
+						if ini := g.Pkg.Func("init"); ini != nil {
+							for _, b := range ini.Blocks {
+								for _, ins := range b.Instrs {
+									if st, ok := ins.(*ssa.Store); ok && st.Addr == ssa.Value(g) && joinsGW(st.Val) {
+										return true
+									}
+								}
+							}
+						}
+					}
+				}
+				return false
+			}
+			cleaned := func(key ssa.Value) bool { cl, _ := callOf(key); return cl != nil && isJoin(cl) }
+			kvRemove := P.IMethod("server/kv", "Base", "Remove")
+			kvSave := P.IMethod("server/kv", "Base", "Save")
+			for _, ci := range callsIn(removeSvc, false, kvRemove) {
+				a := callArgs(ci.Common())
+				if len(a) != 1 {
+					continue
+				}
+				key := a[0]
+				byKey := guardRel("key != gc_worker's key", "!=", same(key), denotesGWKey)
+				byID := guardRel("serviceID != gc_worker", "!=", func(v ssa.Value) bool { _, ok := v.(*ssa.Parameter); return ok }, isConstStr(gwName))
+				rawOK := !cleaned(key)
+				target := ci.(ssa.Instruction)
+				c.need("C15/gc-worker-permanent", removeSvc, "call Storage.Remove", func(x ssa.Instruction) bool { return x == target }, []Ev{byKey, byID},
+					func(h []bool) bool { return h[0] || (h[1] && rawOK) },
+					"gc_worker's entry is never removed: the key that is removed was compared with gc_worker's key (a comparison of the id alone is not enough when the key is cleaned by path.Join)")
+			}
+			for _, ci := range callsIn(saveSvc, false, kvSave) {
+				a := callArgs(ci.Common())
+				if len(a) != 2 {
+					continue
+				}
+				key := a[0]
+				byKey := guardRel("key != gc_worker's key", "!=", same(key), denotesGWKey)
+				isGW := guardRel("ServiceID == gc_worker", "==", loadOfField(fSvcID), isConstStr(gwName))
+				notGW := guardRel("ServiceID != gc_worker", "!=", loadOfField(fSvcID), isConstStr(gwName))
+				inf := guardRel("ExpiredAt == MaxInt64", "==", loadOfField(fExpired), isConstInt(math.MaxInt64))
+				rawOK := !cleaned(key)
+				target := ci.(ssa.Instruction)
+				c.need("C15/gc-worker-permanent", saveSvc, "call Storage.Save", func(x ssa.Instruction) bool { return x == target }, []Ev{byKey, isGW, notGW, inf},
+					func(h []bool) bool { return h[0] || (h[1] && h[3]) || (h[2] && rawOK) },
+					"what is written under gc_worker's key is gc_worker's own record with unlimited lifetime: the key was found different from gc_worker's, or the record names gc_worker and never expires")
+			}
 			// the expiry test never sees gc_worker's entry with a finite expiry: a legacy record is repaired first
 			unixCall := func(v ssa.Value) bool {
 				cl, _ := callOf(v)
